@@ -882,12 +882,17 @@ def check_iter_typestate(res, prop, cm, roles, m, seg):
     res.ob('R-ITER-TS', ok=True)
 
 
+def head_is_used(seg):
+    """the path established begin() != partition: the list head is a used (bound) node, so the cache is non-empty"""
+    return any(c[0] == 'AT_PART' and c[2] is False and isinstance(c[1][0], Ent) and c[1][0].kind == 'FRONT' for c in seg.conds)
+
+
 def check_free_slot(res, prop, cm, roles, m, seg):
     """R-FREE-SLOT: back-pointer fields are read only from slots known to be bound"""
     L = seg.L
     val = ' '.join(seg.valuation())
     nonempty = seg.cond('NONEMPTY') is True or seg.cond('FULL') is True or seg.cond('PRESENT') is True or seg.cond('ATCAP') is True \
-        or seg.cond('AUX_NONEMPTY') is True
+        or seg.cond('AUX_NONEMPTY') is True or head_is_used(seg)
     seen = set()
     written = set()
     for e in seg.events:
@@ -931,7 +936,8 @@ def check_free_slot(res, prop, cm, roles, m, seg):
 
 def check_victim_reads(res, prop, cm, roles, m, seg):
     """back() / begin() of a structure are read only when it is known non-empty"""
-    nonempty = seg.cond('NONEMPTY') is True or seg.cond('FULL') is True or seg.cond('PRESENT') is True or seg.cond('AUX_NONEMPTY') is True
+    nonempty = seg.cond('NONEMPTY') is True or seg.cond('FULL') is True or seg.cond('PRESENT') is True or seg.cond('AUX_NONEMPTY') is True \
+        or head_is_used(seg)
     for e in seg.events:
         if e[0] != 'rd':
             continue
